@@ -603,7 +603,8 @@ def r02_2(ctx):
             st = p.store["self"]
             buf, flag = st.get("_buffer"), st.get("_discarding_until_next_flag")
             nx = [e for e in p.events if e.kind == "call" and e.what == "next"]
-            calls = [e for e in p.events if e.kind == "call" and not e.what.endswith(".extend")]
+            relevant = ("next", "self._unstuff_bytes", "parse_frame", "self.frame_received", "self._write_frame")
+            calls = [e for e in p.events if e.kind == "call" and (e.what in relevant or e.what.endswith((".pop", ".clear", ".partition", ".index", ".find")))]
             unst = [e for e in calls if e.what == "self._unstuff_bytes"]
             prs = [e for e in calls if e.what == "parse_frame"]
             dlv = [e for e in calls if e.what == "self.frame_received"]
